@@ -6,6 +6,7 @@ import (
 	"math/big"
 
 	"github.com/ElrondNetwork/elrond-vm-common/builtInFunctions"
+	"github.com/ElrondNetwork/elrond-vm-common/data/esdt"
 	"github.com/ElrondNetwork/elrond-vm-common/zz_verif/verif"
 	"github.com/ElrondNetwork/elrond-vm-common/zz_verif/world"
 )
@@ -23,7 +24,7 @@ func amount(tag string) []byte {
 	if small && !fullAmounts {
 		return verif.Bytes(tag, 1)
 	}
-	if verif.Thorough() {
+	if wide() {
 		return verif.BytesLen(tag, 0, 16)
 	}
 	return verif.BytesOf(tag, 0, 1, 8, 9)
@@ -33,7 +34,7 @@ func tokenID(tag string) []byte {
 	if small {
 		return verif.Bytes(tag, 2)
 	}
-	if verif.Thorough() {
+	if wide() {
 		return verif.BytesLen(tag, 0, 3)
 	}
 	return verif.BytesOf(tag, 0, 2)
@@ -87,4 +88,79 @@ func C02_LocalMint() {
 	f, _ := builtInFunctions.NewESDTLocalMintFunc(verif.U64("cost"), w.Codec, w.Pause, &world.RolesStub{W: w})
 	_, err := call(f, snd, nil, in)
 	supplyCheck(w, snd, tokenKey(tok), num(amt), +1, err)
+}
+
+func init() { reg("C02_SaveKeyValueBalanceKeys", C02_SaveKeyValueBalanceKeys) }
+
+// C02_SaveKeyValueBalanceKeys: SaveKeyValue, driven with keys that ARE balance entries
+// (ELRONDesdt‖token and ELRONDesdt‖token‖nonce, of the caller itself) at any position of a
+// 1..2 pair list (1..3 thorough) and with values that decode to a token of arbitrary
+// quantity, to nothing, or are empty (a delete), changes no balance entry: nothing is
+// written under a balance key of any account. (The generated C02_SaveKeyValue scenario keeps
+// its keys short for speed and so never names a balance key.)
+func C02_SaveKeyValueBalanceKeys() {
+	s := newScn("SaveKeyValue", Opt{GasEnough: true, NoRAE: true, Direct: true, FixedCaller: true})
+	s.W.Cfg.RawOther = 2
+	max := 2
+	if verif.Thorough() {
+		max = 3
+	}
+	pairs := 1 + verif.Choose("pairs", max)
+	tags := []string{"p0", "p1", "p2"}
+	var args [][]byte
+	nBal := 0
+	firstPlain, laterBal := false, false
+	for i := 0; i < pairs; i++ {
+		tag := tags[i]
+		var k, v []byte
+		kind := verif.Choose(tag+".key", 3)
+		if i == 0 {
+			firstPlain = kind == 0
+		} else if kind != 0 {
+			laterBal = true
+		}
+		switch kind {
+		case 0:
+			k = verif.Bytes(tag+".plain", 1)
+		case 1:
+			k = append(append([]byte{}, world.TokenPrefix...), verif.Bytes(tag+".tok", 2)...)
+			nBal++
+		case 2:
+			k = append(append([]byte{}, world.TokenPrefix...), verif.Bytes(tag+".toknonce", 3)...)
+			nBal++
+		}
+		switch verif.Choose(tag+".val", 3) {
+		case 0:
+			v = []byte{}
+		case 1:
+			v = verif.Bytes(tag+".raw", 2)
+		case 2:
+			q := verif.Int(tag + ".qty")
+			v = s.W.Codec.Pack(&esdt.ESDigitalToken{Value: q})
+		}
+		args = append(args, k, v)
+	}
+	s.selfCall(args)
+	g := s.prices()
+	s.Fn, _ = builtInFunctions.NewSaveKeyValueStorageFunc(g.BaseOperationCost, g.BuiltInCost.SaveKeyValue)
+	s.finishPricing()
+	s.Run()
+	ok := s.Err == nil
+	for _, wr := range s.W.Log {
+		verif.Assert("no-write-under-a-balance-key", verif.Or(wr.Kind != "kv", world.KeyClass(wr.Key) != "token"))
+	}
+	for _, a := range s.W.Accounts.Known {
+		for _, c := range a.Cells {
+			if world.KeyClass(c.Key) == "token" {
+				verif.Assert("balance-entry-unchanged", len(c.Init) == len(c.Cur) && verif.BytesEq(c.Init, c.Cur))
+			}
+		}
+	}
+	if nBal > 0 {
+		verif.Assert("balance-key-rejected", !ok)
+	}
+	verif.Reach("accepted-plain-keys", verif.And(ok, nBal == 0))
+	verif.Reach("rejected-balance-key-first", verif.And(!ok, nBal > 0))
+	verif.Reach("rejected-balance-key-later", verif.And(!ok, firstPlain, laterBal))
+	verif.ObserveBool("ok", ok)
 }
